@@ -225,8 +225,41 @@ fn render_list(e: &Value) -> String {
     }
 }
 
+thread_local! {
+    static RENDER_SESS: std::cell::RefCell<Option<Sess>> = const { std::cell::RefCell::new(None) };
+    static RENDER: std::cell::RefCell<std::collections::HashMap<String, String>> = std::cell::RefCell::new(std::collections::HashMap::new());
+}
+
+/// How numbat itself prints the value of a closed literal expression (`7`, `3 m`, `1 == 2`).
+/// The property is about which elements a list holds, not about number formatting, so the
+/// model's expectation is spelled the way the interpreter under test spells scalars.
+fn shown(expr: &str) -> String {
+    if let Some(t) = RENDER.with(|r| r.borrow().get(expr).cloned()) {
+        return t;
+    }
+    let t = RENDER_SESS.with(|s| {
+        let s = s.borrow();
+        let Some(base) = s.as_ref() else {
+            return expr.to_string();
+        };
+        let mut c = base.clone();
+        let o = c.submit(&format!("print({expr})"));
+        if o.is_ok() && o.prints.len() == 1 {
+            o.prints[0].clone()
+        } else {
+            expr.to_string()
+        }
+    });
+    RENDER.with(|r| r.borrow_mut().insert(expr.to_string(), t.clone()));
+    t
+}
+
+fn shown_bool(b: bool) -> String {
+    shown(if b { "1 == 1" } else { "1 == 2" })
+}
+
 fn fmt_list(v: &[i64]) -> String {
-    format!("[{}]", v.iter().map(|x| el(*x)).collect::<Vec<_>>().join(", "))
+    format!("[{}]", v.iter().map(|x| shown(&el(*x))).collect::<Vec<_>>().join(", "))
 }
 
 type Env = BTreeMap<String, Vec<i64>>;
@@ -567,6 +600,11 @@ pub fn exec(w: &mut InterpWorker, trace: &Value, res: &mut ExecResult) {
     }
     let units = trace["units"].as_bool().unwrap_or(false);
     UNITS.with(|u| u.set(units));
+    RENDER_SESS.with(|s| {
+        if s.borrow().is_none() {
+            *s.borrow_mut() = Some(base.clone());
+        }
+    });
     if units {
         res.bump("interp.runs_with_equal_but_distinct_elements");
     }
@@ -682,22 +720,22 @@ pub fn exec(w: &mut InterpWorker, trace: &Value, res: &mut ExecResult) {
                     match st["kind"].as_str().unwrap_or("len") {
                         "head" => (
                             format!("print(head({text_e}))"),
-                            model.clone().and_then(|v| v.first().map(|x| el(*x)).ok_or(())),
+                            model.clone().and_then(|v| v.first().map(|x| shown(&el(*x))).ok_or(())),
                         ),
                         "len" => (
                             format!("print(len({text_e}))"),
-                            model.clone().map(|v| v.len().to_string()),
+                            model.clone().map(|v| shown(&v.len().to_string())),
                         ),
                         "sum" => (
                             format!("print(sum({text_e}))"),
-                            model.clone().map(|v| v.iter().sum::<i64>().to_string()),
+                            model.clone().map(|v| shown(&v.iter().sum::<i64>().to_string())),
                         ),
                         "element_at" => {
                             let i = st["index"].as_i64().unwrap_or(0);
                             (
                                 format!("print(element_at({i}, {text_e}))"),
                                 model.clone().and_then(|v| {
-                                    v.get(i as usize).map(|x| el(*x)).ok_or(())
+                                    v.get(i as usize).map(|x| shown(&el(*x))).ok_or(())
                                 }),
                             )
                         }
@@ -715,7 +753,7 @@ pub fn exec(w: &mut InterpWorker, trace: &Value, res: &mut ExecResult) {
                                         if pa == pb && a != b {
                                             res.bump("probe.interp_eq_of_equal_but_distinct_lists");
                                         }
-                                        Ok((pa == pb).to_string())
+                                        Ok(shown_bool(pa == pb))
                                     }
                                     _ => Err(()),
                                 },
